@@ -397,6 +397,23 @@ struct Interp
 
 	void go()
 	{
+		// an earlier simulation of the same process that has run its course but still exists (a program that keeps its
+		// simulations in variables of one scope): the new one starts at zero all the same
+		sim::default_config ghost_cfg;
+		std::unique_ptr<sim::simulation> ghost;
+		std::unique_ptr<asio::io_context> ghost_ios;
+		std::unique_ptr<asio::high_resolution_timer> ghost_timer;
+		if (plan.c("ghost_ms", 0) > 0)
+		{
+			ghost.reset(new sim::simulation(ghost_cfg));
+			ghost_ios.reset(new asio::io_context(*ghost));
+			ghost_timer.reset(new asio::high_resolution_timer(*ghost_ios));
+			ghost_timer->expires_after(duration(plan.c("ghost_ms") * 1000000));
+			ghost_timer->async_wait([](boost::system::error_code const&) {});
+			ghost->run();
+			ghost_timer.reset();
+			ctx.hit("earlier_simulation_still_alive");
+		}
 		sim.reset(new sim::simulation(cfg));
 		if (now_ns() != 0) fail("clock.start", "clock is " + std::to_string(now_ns()) + " after constructing a simulation");
 		last_sample = 0;
@@ -465,6 +482,7 @@ struct ClockEngine : Engine
 		int const nops = int(rng.range(1, maxops));
 		int const nt = int(rng.range(1, c02 ? 8 : 4));
 		p.cfg["timers"] = nt;
+		p.cfg["ghost_ms"] = rng.chance(0.1) ? int64_t(rng.range(1, 5000)) : 0;
 		// swarm mask: which op kinds are enabled in this run
 		uint64_t mask = rng.next();
 		if ((mask & 0x3f) == 0) mask |= 1;
